@@ -41,6 +41,16 @@ CLAIMED = {
              "These are facts about code shape that hold for every molecule ordering and operation sequence; polars itself is trusted.",
         technique="order-provenance and same-source dataflow rules on ast, effect analysis over the resolved call graph, CFG must-pass-through",
         ref="5 C03"),
+    "C05": dict(
+        text="Symbolic evaluation of the whole refinement pipeline (integer peak, clipped refinement mesh, decode; coarse and up-sampled "
+             "phase correlation) into affine forms with int/floor/ceil/round/min/max atoms and index-range facts, then an exact Fourier-Motzkin "
+             "prover (integer tightening, min/max case split, assume-guarantee for the PCC refinement) shows |shift| <= max_shifts for every "
+             "box shape, peak position, refined index and max_shifts >= 0; refutations carry a concrete witness assignment of the extracted "
+             "forms. Array-shape tracking proves the ZNCC/NCC crop is symmetric, never empty and within range; an FFT-layout tag proves "
+             "crop_by_max_shifts is only applied to FFT-ordered arrays; a def-use rule proves every nm->pixel conversion of max_shifts is "
+             "normalised first. Finiteness of scores on degenerate data is not decided.",
+        technique="abstract interpretation over ast (affine forms + symbolic array shapes/origins/layouts), Fourier-Motzkin inequality prover, def-use rule",
+        ref="5 C05"),
 }
 
 NOT_APPLICABLE = {
